@@ -336,15 +336,20 @@ func newSetupGeneric(opts *WOpts, store *realStore, ms *mutableStore, bs *WBS) *
 		r := newRng(opts.Shuffle)
 		// the options that count, in random order; an absent provider / logger may be stated explicitly
 		final := []evaluation.EvaluatorOption{evaluation.EvaluatorOptionEnableSecondaryKey(opts.Sec)}
+		bsStated, logStated := true, true
 		if s.bs != nil {
 			final = append(final, evaluation.EvaluatorOptionBigSegmentProvider(s.bs))
 		} else if r.bool() {
 			final = append(final, evaluation.EvaluatorOptionBigSegmentProvider(nil))
+		} else {
+			bsStated = false
 		}
 		if s.log != nil {
 			final = append(final, evaluation.EvaluatorOptionErrorLogger(s.log))
 		} else if r.bool() || opts.LogMode == "nilopt" {
 			final = append(final, evaluation.EvaluatorOptionErrorLogger(nil))
+		} else {
+			logStated = false
 		}
 		for i := len(final) - 1; i > 0; i-- {
 			j := r.intn(i + 1)
@@ -355,10 +360,10 @@ func newSetupGeneric(opts *WOpts, store *realStore, ms *mutableStore, bs *WBS) *
 		if r.bool() {
 			decoys = append(decoys, evaluation.EvaluatorOptionEnableSecondaryKey(!opts.Sec))
 		}
-		if r.bool() {
+		if bsStated && r.bool() { // a decoy only where a later option of the same kind overrides it
 			decoys = append(decoys, evaluation.EvaluatorOptionBigSegmentProvider(decoyBS{&s.decoyHits}))
 		}
-		if r.bool() {
+		if logStated && r.bool() {
 			decoys = append(decoys, evaluation.EvaluatorOptionErrorLogger(decoyLogger{&s.decoyHits}))
 		}
 		options = append(decoys, final...)
